@@ -17,11 +17,11 @@ use truc::record::type_resolver::HostTypeResolver;
 use verif_harness::Rng;
 
 /// lab field types: name, size, align, Copy?
-const TYPES: [(&str, usize, usize, bool); 16] = [
+const TYPES: [(&str, usize, usize, bool); 17] = [
     // real std heap types (values carry JSON escapes); no drop logging for them
     ("String", 24, 8, false), ("Box<str>", 16, 8, false), ("Vec<u8>", 24, 8, false),
     ("P1", 1, 1, true), ("P2", 2, 2, true), ("P4", 4, 4, true), ("P8", 8, 8, true), ("P16", 16, 16, true),
-    ("P3", 3, 1, true), ("P12", 12, 4, true), ("P24", 24, 8, true),
+    ("P3", 3, 1, true), ("P12", 12, 4, true), ("P24", 24, 8, true), ("Option<P4>", 8, 4, true),
     ("H", 8, 8, false), ("O3", 3, 1, false), ("A16", 16, 16, false), ("Z", 0, 1, false), ("Z8", 0, 8, false),
 ];
 
@@ -223,9 +223,12 @@ impl<'a> Gen<'a> {
         let n = self.vs[r.v].data.len();
         let json = self.rng.chance(1, 2);
         let kinds: Vec<&str> = if json { vec!["trunc", "corrupt", "long"] } else { vec!["trunc"] };
-        let kind = *self.rng.pick(&kinds);
+        let mut kind = *self.rng.pick(&kinds);
         if n == 0 && kind != "long" { return; }
-        let k = if n == 0 { 0 } else { self.rng.below(n) };
+        let mut k = if n == 0 { 0 } else { self.rng.below(n) };
+        // a trailing run of `Option<_>` fields: cut inside it (a missing element is not a `None`)
+        let opt_tail = self.vs[r.v].data.iter().rev().take_while(|f| f.ty.replace(' ', "").starts_with("Option<")).count();
+        if json && opt_tail > 0 && self.rng.chance(2, 3) { kind = "trunc"; k = n - 1 - self.rng.below(opt_tail); }
         let ty = self.rty(r.v);
         let classify = "let cls = |m: String| -> &'static str { if m.contains(\"missing field\") { \"missing\" } else if m.contains(\"trailing\") { \"trailing\" } else if m.contains(\"invalid length\") { \"invalid-length\" } else { \"bad\" } };";
         let code = if json {
@@ -239,7 +242,7 @@ impl<'a> Gen<'a> {
             // byte length of the first k elements: 8 for the lab types (u64), length-prefixed for the std text types
             let cut: String = self.vs[r.v].data.iter().take(k).map(|f| if matches!(f.ty.as_str(), "String" | "Box<str>" | "Vec<u8>") {
                 "cut += 8 + u64::from_le_bytes(bytes[cut..cut + 8].try_into().unwrap()) as usize; ".to_string()
-            } else { "cut += 8; ".to_string() }).collect();
+            } else if f.ty.replace(' ', "").starts_with("Option<") { "cut += 9; ".to_string() } else { "cut += 8; ".to_string() }).collect();
             format!("{{ {cl} let mut bytes = bincode::serialize(&{a}).unwrap(); let mut cut: usize = 0; {cut}bytes.truncate(cut); let res: Result<{ty}, _> = bincode::deserialize(&bytes); match res {{ Ok(c) => {{ mute(true); drop(c); mute(false); flush(out, \"ok?\".into()); }} Err(e) => flush(out, format!(\"err {{}}\", cls(e.to_string()))) }} }}", cl = classify, a = self.acc(r), cut = cut, ty = ty)
         };
         self.op(&format!("debad {} {} {} {}", if json { "json" } else { "bincode" }, r.n, kind, k), &code);
@@ -335,7 +338,7 @@ fn build_def(rng: &mut Rng, req: &mut String) -> RecordDefinition<NativeDatumDet
         let nadd = if shape == 1 && v == 0 { 17 + rng.below(4) } else if rng.chance(1, 8) { 0 } else { 1 + rng.below(5) };
         for _ in 0..nadd {
             let (ty, size, align, copy) = loop {
-                let t = TYPES[rng.below(TYPES.len())];
+                let t = if shape == 0 && rng.chance(1, 10) { TYPES[11] } else { TYPES[rng.below(TYPES.len())] };
                 if shape == 2 && !t.3 { continue; }
                 if shape == 4 && v > 0 && !t.3 { continue; }
                 if shape == 4 && v == 0 && t.3 && rng.chance(2, 3) { continue; }
